@@ -107,4 +107,140 @@ theorem cov_transverse (hR : R * Rᵀ = 1) (i j : Fin 3) :
 
 end fin3
 
+/-! ## the orbital representation `T(R) = diag(1, R)` on `(s, p_x, p_y, p_z)` -/
+
+section orb
+variable (R : Matrix (Fin 3) (Fin 3) ℝ)
+
+/-- `T(R)`: `s` is a scalar, `(p_x, p_y, p_z)` transform like a vector -/
+def orbRot : Matrix (Fin 4) (Fin 4) ℝ :=
+  Matrix.of fun μ ν =>
+    Fin.cases (motive := fun _ => ℝ) (Fin.cases (motive := fun _ => ℝ) 1 (fun _ => 0) ν)
+      (fun i => Fin.cases (motive := fun _ => ℝ) 0 (fun j => R i j) ν) μ
+
+@[simp] theorem orbRot_zero_zero : orbRot R 0 0 = 1 := rfl
+@[simp] theorem orbRot_zero_succ (j : Fin 3) : orbRot R 0 j.succ = 0 := rfl
+@[simp] theorem orbRot_succ_zero (i : Fin 3) : orbRot R i.succ 0 = 0 := rfl
+@[simp] theorem orbRot_succ_succ (i j : Fin 3) : orbRot R i.succ j.succ = R i j := rfl
+
+theorem sum_orbRot_zero (f : Fin 4 → ℝ) : ∑ a, orbRot R 0 a * f a = f 0 := by
+  rw [Fin.sum_univ_succ]; simp
+
+theorem sum_orbRot_succ (k : Fin 3) (f : Fin 4 → ℝ) :
+    ∑ a, orbRot R k.succ a * f a = ∑ a : Fin 3, R k a * f a.succ := by
+  rw [Fin.sum_univ_succ]; simp
+
+/-- `T(R)` is orthogonal when `R` is -/
+theorem orbRot_mul_transpose (hR : R * Rᵀ = 1) : orbRot R * (orbRot R)ᵀ = 1 := by
+  ext μ ν
+  rw [Matrix.mul_apply]
+  simp only [Matrix.transpose_apply]
+  induction μ using Fin.cases with
+  | zero =>
+    rw [sum_orbRot_zero]
+    induction ν using Fin.cases with
+    | zero => simp
+    | succ j => simp [(Fin.succ_ne_zero j).symm]
+  | succ i =>
+    rw [sum_orbRot_succ]
+    induction ν using Fin.cases with
+    | zero => simp [Fin.succ_ne_zero i]
+    | succ j =>
+      have h := congrFun (congrFun hR i) j
+      simp only [Matrix.mul_apply, Matrix.transpose_apply] at h
+      simp only [orbRot_succ_succ, h, Matrix.one_apply, Fin.succ_inj]
+
+theorem orbRot_transpose_mul (hR : R * Rᵀ = 1) : (orbRot R)ᵀ * orbRot R = 1 :=
+  mul_eq_one_comm.mp (orbRot_mul_transpose R hR)
+
+theorem orbRot_mem_orthogonalGroup (hR : R ∈ Matrix.orthogonalGroup (Fin 3) ℝ) :
+    orbRot R ∈ Matrix.orthogonalGroup (Fin 4) ℝ := by
+  rw [Matrix.mem_orthogonalGroup_iff] at hR ⊢
+  exact orbRot_mul_transpose R hR
+
+end orb
+
+/-! ## generic contractions -/
+
+section contraction
+variable {n : Type} [Fintype n] [DecidableEq n]
+
+omit [DecidableEq n] in
+theorem sum4_comm (f : n → n → n → n → ℝ) :
+    ∑ a, ∑ b, ∑ c, ∑ d, f a b c d = ∑ c, ∑ d, ∑ a, ∑ b, f a b c d := by
+  calc ∑ a, ∑ b, ∑ c, ∑ d, f a b c d
+      = ∑ a, ∑ c, ∑ b, ∑ d, f a b c d := Finset.sum_congr rfl fun a _ => Finset.sum_comm
+    _ = ∑ c, ∑ a, ∑ b, ∑ d, f a b c d := Finset.sum_comm
+    _ = ∑ c, ∑ a, ∑ d, ∑ b, f a b c d :=
+        Finset.sum_congr rfl fun c _ => Finset.sum_congr rfl fun a _ => Finset.sum_comm
+    _ = ∑ c, ∑ d, ∑ a, ∑ b, f a b c d := Finset.sum_congr rfl fun c _ => Finset.sum_comm
+
+omit [DecidableEq n] in
+theorem trace_mul_transpose_eq_sum (A B : Matrix n n ℝ) :
+    Matrix.trace (A * Bᵀ) = ∑ μ, ∑ ν, A μ ν * B μ ν := by
+  simp [Matrix.trace, Matrix.mul_apply]
+
+/-- the Frobenius pairing of two rank-2 tensors is invariant under an orthogonal change of basis -/
+theorem sum_mul_conj (T P X : Matrix n n ℝ) (hT : Tᵀ * T = 1) :
+    ∑ μ, ∑ ν, (T * P * Tᵀ) μ ν * (T * X * Tᵀ) μ ν = ∑ a, ∑ b, P a b * X a b := by
+  rw [← trace_mul_transpose_eq_sum, ← trace_mul_transpose_eq_sum]
+  have h1 : T * P * Tᵀ * (T * X * Tᵀ)ᵀ = T * (P * Xᵀ * Tᵀ) := by
+    simp only [Matrix.transpose_mul, Matrix.transpose_transpose, Matrix.mul_assoc]
+    rw [← Matrix.mul_assoc Tᵀ T, hT, Matrix.one_mul]
+  rw [h1, Matrix.trace_mul_comm, Matrix.mul_assoc, hT, Matrix.mul_one]
+
+omit [DecidableEq n] in
+/-- `rot2` is conjugation `T X Tᵀ` -/
+theorem rot2_eq_conj (T : Matrix n n ℝ) (X : n → n → ℝ) (μ ν : n) :
+    rot2 T X μ ν = (T * Matrix.of X * Tᵀ) μ ν := by
+  rw [Matrix.mul_assoc]
+  simp only [rot2, Matrix.mul_apply, Matrix.transpose_apply, Matrix.of_apply]
+  refine Finset.sum_congr rfl fun a _ => ?_
+  congr 1
+  exact Finset.sum_congr rfl fun b _ => mul_comm _ _
+
+/-- Coulomb matrix `J_{λσ} = Σ_{μν} P_{μν} (μν|λσ)` (`J_A = (PA * w).sum(dim=1)` in `fock.py::_two_center`) -/
+def coulombJ (W : n → n → n → n → ℝ) (P : Matrix n n ℝ) : Matrix n n ℝ :=
+  Matrix.of fun lam σ => ∑ μ, ∑ ν, P μ ν * W μ ν lam σ
+
+/-- covariant integrals and a covariant density give a covariant Coulomb matrix -/
+theorem coulombJ_covariant (T : Matrix n n ℝ) (hT : Tᵀ * T = 1) (W : n → n → n → n → ℝ) (P : Matrix n n ℝ) :
+    coulombJ (rot4 T W) (T * P * Tᵀ) = T * coulombJ W P * Tᵀ := by
+  ext lam σ
+  have hslice : ∀ μ ν, rot4 T W μ ν lam σ
+      = (T * Matrix.of (fun a b => rot2 T (W a b) lam σ) * Tᵀ) μ ν := by
+    intro μ ν
+    rw [← rot2_eq_conj]
+    rfl
+  have hR : (T * coulombJ W P * Tᵀ) lam σ
+      = rot2 T (fun c d => ∑ a, ∑ b, P a b * W a b c d) lam σ := by
+    rw [rot2_eq_conj]; rfl
+  rw [hR]
+  show ∑ μ, ∑ ν, (T * P * Tᵀ) μ ν * rot4 T W μ ν lam σ = _
+  simp only [hslice]
+  rw [sum_mul_conj T P _ hT]
+  simp only [Matrix.of_apply, rot2, Finset.mul_sum]
+  rw [sum4_comm]
+  refine Finset.sum_congr rfl fun c _ => Finset.sum_congr rfl fun d _ =>
+    Finset.sum_congr rfl fun a _ => Finset.sum_congr rfl fun b _ => ?_
+  ring
+
+/-- the Coulomb contraction `Σ_{λσ} (Σ_{μν} P^A_{μν} (μν|λσ)) P^B_{λσ}` is invariant -/
+theorem coulomb_energy_invariant (T : Matrix n n ℝ) (hT : Tᵀ * T = 1) (W : n → n → n → n → ℝ)
+    (PA PB : Matrix n n ℝ) :
+    ∑ lam, ∑ σ, coulombJ (rot4 T W) (T * PA * Tᵀ) lam σ * (T * PB * Tᵀ) lam σ
+      = ∑ lam, ∑ σ, coulombJ W PA lam σ * PB lam σ := by
+  rw [coulombJ_covariant T hT]
+  exact sum_mul_conj T _ _ hT
+
+omit [DecidableEq n] in
+/-- the flat four-index form of the contraction -/
+theorem coulomb_energy_flat (W : n → n → n → n → ℝ) (PA PB : Matrix n n ℝ) :
+    ∑ μ, ∑ ν, ∑ lam, ∑ σ, PA μ ν * W μ ν lam σ * PB lam σ
+      = ∑ lam, ∑ σ, coulombJ W PA lam σ * PB lam σ := by
+  rw [sum4_comm]
+  simp only [coulombJ, Matrix.of_apply, Finset.sum_mul]
+
+end contraction
+
 end Covariance
